@@ -14,6 +14,7 @@ import (
 	"net/http/httptest"
 	"reflect"
 	"sync"
+	"time"
 
 	apifu "github.com/ccbrown/api-fu"
 	"github.com/ccbrown/api-fu/graphql"
@@ -22,7 +23,12 @@ import (
 type thing struct {
 	id string
 	n  int
+	N  int // read by the helper apifu.NonNull through reflection
+	at time.Time
 }
+
+// the features a connection_init payload granted (stored by Config.HandleGraphQLWSInit)
+type initFeatKey struct{}
 
 type featKey struct{}
 
@@ -66,30 +72,52 @@ func (s *memStorage) PersistQuery(ctx context.Context, query string, hash []byte
 // real schema's introspection answers like any other description
 func apifuDesc(subs bool) *desc {
 	nn := func(n string) tref { return tref{n, "N"} }
-	d := &desc{Query: "Query", Directives: stdDirectives()}
-	for _, s := range []string{"ID", "Int", "String", "Boolean"} {
+	d := &desc{Query: "Query", Mutation: "Mutation", Directives: stdDirectives()}
+	for _, s := range []string{"ID", "Int", "String", "Boolean", "DateTime"} {
 		d.Types = append(d.Types, typeDesc{Kind: "scalar", Name: s})
 	}
-	fa := []string{"fa"}
+	fa, fb := []string{"fa"}, []string{"fb"}
+	paging := []argDesc{{"first", tref{"Int", ""}}, {"after", tref{"String", ""}}, {"last", tref{"Int", ""}}, {"before", tref{"String", ""}}}
+	timed := append(append([]argDesc(nil), paging...), argDesc{"atOrAfterTime", tref{"DateTime", ""}}, argDesc{"beforeTime", tref{"DateTime", ""}})
+	edge := func(prefix string, req []string, extra fieldDesc) typeDesc {
+		return typeDesc{Kind: "object", Name: prefix + "Edge", Req: req, Fields: []fieldDesc{
+			{Name: "cursor", Type: nn("String")}, {Name: "node", Type: nn("Thing"), Ret: "Thing"}, extra}}
+	}
+	conn := func(prefix string, req []string, total bool) typeDesc {
+		t := typeDesc{Kind: "object", Name: prefix + "Connection", Req: req, Fields: []fieldDesc{
+			{Name: "edges", Type: tref{prefix + "Edge", "NLN"}, Ret: prefix + "Edge"},
+			{Name: "pageInfo", Type: nn("PageInfo"), Ret: "PageInfo"}}}
+		if total {
+			t.Fields = append(t.Fields, fieldDesc{Name: "totalCount", Type: nn("Int")})
+		}
+		return t
+	}
 	d.Types = append(d.Types,
-		typeDesc{Kind: "interface", Name: "Node", Fields: []fieldDesc{{Name: "id", Type: nn("ID")}}},
-		typeDesc{Kind: "object", Name: "Thing", Ifaces: []string{"Node"}, Fields: []fieldDesc{{Name: "id", Type: nn("ID")}, f("n", "Int")}},
+		// Config.AdditionalNodeFields: a gated field of the Node interface
+		typeDesc{Kind: "interface", Name: "Node", Fields: []fieldDesc{{Name: "id", Type: nn("ID")}, {Name: "betaId", Type: tref{"ID", ""}, Req: fa}}},
+		// Thing.nn is built by the helper apifu.NonNull and gated afterwards
+		typeDesc{Kind: "object", Name: "Thing", Ifaces: []string{"Node"}, Fields: []fieldDesc{
+			{Name: "id", Type: nn("ID")}, f("n", "Int"), {Name: "betaId", Type: tref{"ID", ""}, Req: fa}, {Name: "nn", Type: nn("Int"), Req: fb}}},
 		typeDesc{Kind: "object", Name: "PageInfo", Fields: []fieldDesc{
 			{Name: "hasPreviousPage", Type: nn("Boolean")}, {Name: "hasNextPage", Type: nn("Boolean")},
 			{Name: "startCursor", Type: nn("String")}, {Name: "endCursor", Type: nn("String")}}},
-		typeDesc{Kind: "object", Name: "QueryThingsEdge", Req: fa, Fields: []fieldDesc{
-			{Name: "cursor", Type: nn("String")}, {Name: "node", Type: nn("Thing"), Ret: "Thing"}}},
-		typeDesc{Kind: "object", Name: "QueryThingsConnection", Req: fa, Fields: []fieldDesc{
-			{Name: "edges", Type: tref{"QueryThingsEdge", "NLN"}, Ret: "QueryThingsEdge"},
-			{Name: "pageInfo", Type: nn("PageInfo"), Ret: "PageInfo"}, {Name: "totalCount", Type: nn("Int")}}},
+		// apifu.Connection gated as a whole (fa), with an edge field gated by another feature (fb)
+		edge("QueryThings", fa, fieldDesc{Name: "weight", Type: tref{"Int", ""}, Req: fb}), conn("QueryThings", fa, true),
+		// apifu.Connection that is NOT gated, with a gated edge field (EdgeFields are copied by Connection)
+		edge("QueryItems", nil, fieldDesc{Name: "secret", Type: tref{"Int", ""}, Req: fa}), conn("QueryItems", nil, true),
+		// apifu.TimeBasedConnection gated as a whole (fb), with an edge field gated by fa
+		edge("QueryEvents", fb, fieldDesc{Name: "extra", Type: tref{"Int", ""}, Req: fa}), conn("QueryEvents", fb, false),
 		typeDesc{Kind: "object", Name: "Query", Fields: []fieldDesc{
 			{Name: "node", Type: tref{"Node", ""}, Args: []argDesc{{"id", nn("ID")}}, Ret: "Thing"},
 			{Name: "nodes", Type: tref{"Node", "L"}, Args: []argDesc{{"ids", tref{"ID", "NLN"}}}, Ret: "Thing"},
 			f("ping", "Int"),
 			{Name: "beta", Type: tref{"Int", ""}, Req: fa},
-			{Name: "things", Type: tref{"QueryThingsConnection", ""}, Req: fa, Ret: "QueryThingsConnection",
-				Args: []argDesc{{"first", tref{"Int", ""}}, {"after", tref{"String", ""}}, {"last", tref{"Int", ""}}, {"before", tref{"String", ""}}}},
+			{Name: "things", Type: tref{"QueryThingsConnection", ""}, Req: fa, Ret: "QueryThingsConnection", Args: paging},
+			{Name: "items", Type: tref{"QueryItemsConnection", ""}, Ret: "QueryItemsConnection", Args: paging},
+			{Name: "events", Type: tref{"QueryEventsConnection", ""}, Req: fb, Ret: "QueryEventsConnection", Args: timed},
 		}},
+		// Config.AddMutation
+		typeDesc{Kind: "object", Name: "Mutation", Fields: []fieldDesc{f("bump", "Int"), {Name: "betaBump", Type: tref{"Int", ""}, Req: fa}}},
 	)
 	d.Additional = []string{"Thing"}
 	if subs {
@@ -101,22 +129,46 @@ func apifuDesc(subs bool) *desc {
 	return d
 }
 
-func apifuAPI(gated, registerPageInfo, subs bool, log *calls) (*apifu.API, error) {
+// has(req...) says whether an element with these required features is part of the Config: side a
+// has everything; side b and side c are the Config a developer would write for a request feature
+// set F, without the elements F does not cover.  registerOrphans: list PageInfo and DateTime in
+// AdditionalTypes (side b: every surviving type registered).
+func apifuAPI(has func(req ...string) bool, registerOrphans, subs bool, log *calls) (*apifu.API, error) {
 	logged := func(key string, v func(graphql.FieldContext) interface{}) func(graphql.FieldContext) (interface{}, error) {
 		return func(ctx graphql.FieldContext) (interface{}, error) {
 			log.add(key)
 			return v(ctx), nil
 		}
 	}
-	things := []*thing{{"t1", 1}, {"t2", 2}, {"t3", 3}}
+	fs := func(req ...string) graphql.FeatureSet {
+		if len(req) == 0 {
+			return nil
+		}
+		return graphql.NewFeatureSet(req...)
+	}
+	t0 := time.Unix(1700000000, 0)
+	things := []*thing{{"t1", 1, 1, t0}, {"t2", 2, 2, t0.Add(time.Second)}, {"t3", 3, 3, t0.Add(2 * time.Second)}}
 	cfg := &apifu.Config{
 		PersistedQueryStorage: &memStorage{m: map[string]string{}},
+		// the features granted by the connection_init payload, if any, else what the environment says
+		HandleGraphQLWSInit: func(ctx context.Context, parameters json.RawMessage) (context.Context, error) {
+			var p struct {
+				Features *[]string `json:"features"`
+			}
+			if json.Unmarshal(parameters, &p) == nil && p.Features != nil {
+				return context.WithValue(ctx, initFeatKey{}, graphql.NewFeatureSet(*p.Features...)), nil
+			}
+			return ctx, nil
+		},
 		Features: func(ctx context.Context) graphql.FeatureSet {
+			if f, ok := ctx.Value(initFeatKey{}).(graphql.FeatureSet); ok {
+				return f
+			}
 			if box, ok := ctx.Value(featKey{}).(*featBox); ok {
 				return box.get() // whatever the environment says NOW
 			}
-			fs, _ := ctx.Value(featKey{}).(graphql.FeatureSet)
-			return fs
+			f, _ := ctx.Value(featKey{}).(graphql.FeatureSet)
+			return f
 		},
 		ResolveNodesByGlobalIds: func(ctx context.Context, ids []string) ([]interface{}, error) {
 			var out []interface{}
@@ -130,6 +182,9 @@ func apifuAPI(gated, registerPageInfo, subs bool, log *calls) (*apifu.API, error
 			return out, nil
 		},
 	}
+	if has("fa") {
+		cfg.AdditionalNodeFields = map[string]*graphql.FieldDefinition{"betaId": {Type: graphql.IDType, RequiredFeatures: fs("fa")}}
+	}
 	thingType := &graphql.ObjectType{
 		Name:                  "Thing",
 		ImplementedInterfaces: []*graphql.InterfaceType{cfg.NodeInterface()},
@@ -139,28 +194,81 @@ func apifuAPI(gated, registerPageInfo, subs bool, log *calls) (*apifu.API, error
 		"id": {Type: graphql.NewNonNullType(graphql.IDType), Resolve: logged("Thing.id", func(ctx graphql.FieldContext) interface{} { return ctx.Object.(*thing).id })},
 		"n":  {Type: graphql.IntType, Resolve: logged("Thing.n", func(ctx graphql.FieldContext) interface{} { return ctx.Object.(*thing).n })},
 	}
+	if has("fa") {
+		thingType.Fields["betaId"] = &graphql.FieldDefinition{Type: graphql.IDType, RequiredFeatures: fs("fa"),
+			Resolve: logged("Thing.betaId", func(ctx graphql.FieldContext) interface{} { return "b-" + ctx.Object.(*thing).id })}
+	}
+	if has("fb") {
+		def := apifu.NonNull(graphql.IntType, "N") // the helper builds the definition; the gate is added to it
+		def.RequiredFeatures = fs("fb")
+		inner := def.Resolve
+		def.Resolve = func(ctx graphql.FieldContext) (interface{}, error) { log.add("Thing.nn"); return inner(ctx) }
+		thingType.Fields["nn"] = def
+	}
 	cfg.AddNamedType(thingType)
 	cfg.AddQueryField("ping", &graphql.FieldDefinition{Type: graphql.IntType, Resolve: logged("Query.ping", func(graphql.FieldContext) interface{} { return 7 })})
-	if gated {
-		fa := graphql.NewFeatureSet("fa")
-		cfg.AddQueryField("beta", &graphql.FieldDefinition{Type: graphql.IntType, RequiredFeatures: fa,
+	cfg.AddMutation("bump", &graphql.FieldDefinition{Type: graphql.IntType, Resolve: logged("Mutation.bump", func(graphql.FieldContext) interface{} { return 1 })})
+	if has("fa") {
+		cfg.AddQueryField("beta", &graphql.FieldDefinition{Type: graphql.IntType, RequiredFeatures: fs("fa"),
 			Resolve: logged("Query.beta", func(graphql.FieldContext) interface{} { return 8 })})
+		cfg.AddMutation("betaBump", &graphql.FieldDefinition{Type: graphql.IntType, RequiredFeatures: fs("fa"),
+			Resolve: logged("Mutation.betaBump", func(graphql.FieldContext) interface{} { return 2 })})
+	}
+	// edge fields: node, and one more that is gated (when the Config has it at all)
+	edgeFields := func(prefix, extra string, req ...string) map[string]*graphql.FieldDefinition {
+		m := map[string]*graphql.FieldDefinition{
+			"node": {Type: graphql.NewNonNullType(thingType), Resolve: logged(prefix+"Edge.node", func(ctx graphql.FieldContext) interface{} { return ctx.Object })},
+		}
+		if has(req...) {
+			m[extra] = &graphql.FieldDefinition{Type: graphql.IntType, RequiredFeatures: fs(req...),
+				Resolve: logged(prefix+"Edge."+extra, func(ctx graphql.FieldContext) interface{} { return ctx.Object.(*thing).n })}
+		}
+		return m
+	}
+	allEdges := func(key string) func(ctx graphql.FieldContext) (interface{}, func(a, b interface{}) bool, error) {
+		return func(ctx graphql.FieldContext) (interface{}, func(a, b interface{}) bool, error) {
+			log.add(key)
+			return things, func(a, b interface{}) bool { return a.(string) < b.(string) }, nil
+		}
+	}
+	if has("fa") {
 		cfg.AddQueryField("things", apifu.Connection(&apifu.ConnectionConfig{
 			NamePrefix:       "QueryThings",
-			RequiredFeatures: fa,
+			RequiredFeatures: fs("fa"),
 			CursorType:       reflect.TypeOf(""),
 			EdgeCursor:       func(e interface{}) interface{} { return e.(*thing).id },
-			EdgeFields: map[string]*graphql.FieldDefinition{
-				"node": {Type: graphql.NewNonNullType(thingType), Resolve: logged("QueryThingsEdge.node", func(ctx graphql.FieldContext) interface{} { return ctx.Object })},
-			},
-			ResolveAllEdges: func(ctx graphql.FieldContext) (interface{}, func(a, b interface{}) bool, error) {
-				log.add("Query.things")
-				return things, func(a, b interface{}) bool { return a.(string) < b.(string) }, nil
+			EdgeFields:       edgeFields("QueryThings", "weight", "fb"),
+			ResolveAllEdges:  allEdges("Query.things"),
+		}))
+	}
+	cfg.AddQueryField("items", apifu.Connection(&apifu.ConnectionConfig{
+		NamePrefix:      "QueryItems",
+		CursorType:      reflect.TypeOf(""),
+		EdgeCursor:      func(e interface{}) interface{} { return e.(*thing).id },
+		EdgeFields:      edgeFields("QueryItems", "secret", "fa"),
+		ResolveAllEdges: allEdges("Query.items"),
+	}))
+	if has("fb") {
+		cfg.AddQueryField("events", apifu.TimeBasedConnection(&apifu.TimeBasedConnectionConfig{
+			NamePrefix:       "QueryEvents",
+			RequiredFeatures: fs("fb"),
+			EdgeCursor:       func(e interface{}) apifu.TimeBasedCursor { return apifu.NewTimeBasedCursor(e.(*thing).at, e.(*thing).id) },
+			EdgeFields:       edgeFields("QueryEvents", "extra", "fa"),
+			EdgeGetter: func(ctx graphql.FieldContext, minTime, maxTime time.Time, limit int) (interface{}, error) {
+				log.add("Query.events")
+				var out []*thing
+				for _, t := range things {
+					if !t.at.Before(minTime) && !t.at.After(maxTime) {
+						out = append(out, t)
+					}
+				}
+				return out, nil
 			},
 		}))
 	}
-	if registerPageInfo {
+	if registerOrphans {
 		cfg.AddNamedType(apifu.PageInfoType)
+		cfg.AddNamedType(apifu.DateTimeType)
 	}
 	if subs {
 		// a source stream of two events, then the end of the stream
@@ -178,9 +286,9 @@ func apifuAPI(gated, registerPageInfo, subs bool, log *calls) (*apifu.API, error
 			}}
 		}
 		cfg.AddSubscription("tick", sub("Subscription.tick"))
-		if gated {
+		if has("fa") {
 			def := sub("Subscription.betaTick")
-			def.RequiredFeatures = graphql.NewFeatureSet("fa")
+			def.RequiredFeatures = fs("fa")
 			cfg.AddSubscription("betaTick", def)
 		}
 	}
@@ -246,4 +354,13 @@ var apifuDocs = []string{
 	`{ __type(name: "QueryThingsConnection") { name fields { name } } e: __type(name: "QueryThingsEdge") { name } p: __type(name: "PageInfo") { name fields { name } } }`,
 	`{ __schema { types { name } } }`,
 	`{ __type(name: "Query") { fields { name args { name } type { name kind } } } }`,
+	// gated edge fields of a connection that is not gated itself / gated by another feature
+	`{ items(first: 2) { edges { cursor node { id } secret } totalCount } }`,
+	`{ items(last: 1) { edges { node { n betaId nn } } pageInfo { hasPreviousPage } } }`,
+	`{ things(first: 1) { edges { weight node { nn } } } }`,
+	`{ events(first: 2) { edges { extra cursor node { id } } pageInfo { hasNextPage } } }`,
+	`{ node(id: "t1") { id betaId ... on Thing { nn n } } }`,
+	`{ i: __type(name: "QueryItemsEdge") { fields { name } } e: __type(name: "QueryEventsEdge") { fields { name } } n: __type(name: "Node") { fields { name } } }`,
+	`mutation { bump }`,
+	`mutation { betaBump }`,
 }
